@@ -108,11 +108,110 @@ def pipeline_history(draw):
     return {'mode': 'pipeline', 'cols': names, 'steps': steps}
 
 
+@st.composite
+def pipeline3mr_history(draw):
+    """Pipeline histories under a 3MR heuristic (target-only): the candidate list is every pair of non-relation columns plus each
+    relation column with the label - stable and duplicate-free, so the fairness clause applies."""
+    ncols = draw(st.integers(2, 6))
+    names = [f'c{i}' for i in range(ncols)]
+    names.insert(draw(st.integers(0, ncols)), 'label')
+    rel = draw(st.lists(st.tuples(st.integers(0, ncols - 1), st.integers(0, ncols - 1)), min_size=0, max_size=3, unique=True))
+    names += [f'c{a} AND_REL c{b}' for a, b in rel]
+    n = len(candidates_3mr(names))
+    steps = draw(st.lists(st.tuples(st.sampled_from(['d', 'p', 'p']), st.integers(1, n + 2)).map(list), min_size=2, max_size=12))
+    return {'mode': 'pipeline3mr', 'cols': names, 'steps': steps}
+
+
+def candidates_3mr(cols, label='label'):
+    rel = [c for c in cols if ' AND_REL ' in c]
+    non = sorted(set(cols) - set(rel))
+    return list(itertools.combinations_with_replacement(non, 2)) + [(c, label) for c in rel]
+
+
+@st.composite
+def task_history(draw):
+    """The whole ranking task on a generated csv file: k full mini-batches and a tail of t rows (used when t > 1024), a binding cap,
+    Constant heuristic. The counts the task reports (combination_estimation_counts.json) must equal the selections made."""
+    ncols = draw(st.integers(3, 8))
+    return {'mode': 'task', 'ncols': ncols, 'm': draw(st.integers(1026, 1200)), 'k': draw(st.integers(0, 3)),
+            't': draw(st.sampled_from([0, 300, 1024, 1025, 1100])), 'cap': draw(st.integers(1, ncols + 1)),
+            'label_pos': draw(st.integers(0, ncols - 1))}
+
+
+def check_task(case, rec):
+    import csv
+    import json
+    import os
+    import shutil
+    import tempfile
+
+    from outrank import task_ranking as tr
+    ncols, m = int(case['ncols']), int(case['m'])
+    nrows = int(case['k']) * m + int(case['t'])
+    nb = int(case['k']) + (1 if int(case['t']) > 1024 else 0)
+    cols = [f'f{i}' for i in range(ncols)]
+    cols[int(case['label_pos'])] = 'label'
+    cands = pipeline_candidates(cols) if False else [x for x in itertools.combinations_with_replacement(cols, 2) if 'label' in x]
+    rec.cls('task:batches=%d' % nb, 'task:tail-used' if int(case['t']) > 1024 else 'task:no-tail')
+    tmp = tempfile.mkdtemp(prefix='c07-')
+    old = os.getcwd()
+    orig_pool, orig_sample = tr.Pool, cr.prior_combinations_sample
+    selections = []
+
+    def spy(combinations, args):
+        got = orig_sample(combinations, args)
+        selections.append(list(got))
+        return got
+    try:
+        os.chdir(tmp)
+        os.makedirs('data')
+        with open('data/data.csv', 'w', newline='') as fh:
+            w = csv.writer(fh, lineterminator='\n')
+            w.writerow(cols)
+            for i in range(nrows):
+                w.writerow([str((i * (j + 2)) % 3) for j in range(ncols)])
+        args = stubs.make_args(task='ranking', heuristic='Constant', minibatch_size=m, subsampling=1, data_path=os.path.join(tmp, 'data'),
+                               data_source='csv-raw', output_folder=os.path.join(tmp, 'out'), target_ranking_only='True',
+                               combination_number_upper_bound=int(case['cap']), include_cardinality_in_feature_names='False')
+        tr.Pool = lambda n=None: stubs.InlinePool()
+        cr.prior_combinations_sample = spy
+        stubs.reset_globals()
+        try:
+            tr.outrank_task_conduct_ranking(args)
+        except SystemExit:
+            pass
+        path = os.path.join(tmp, 'out', 'combination_estimation_counts.json')
+        reported = json.load(open(path)) if os.path.exists(path) else None
+    finally:
+        tr.Pool, cr.prior_combinations_sample = orig_pool, orig_sample
+        os.chdir(old)
+        shutil.rmtree(tmp, ignore_errors=True)
+    if len(selections) != nb:
+        # how many batches a file yields is C08's statement; the clause below needs the selections of every processed batch only
+        rec.cls('task:batch-count-differs-from-model')
+    model = Counter(g for sel in selections for g in sel)
+    if nb == 0 and not selections:
+        return
+    if reported is None:
+        raise Violation(f'{len(selections)} batches were sampled but no combination_estimation_counts.json was written', kind='C07/counter')
+    for c in set(cands) | set(model):
+        if int(reported.get(str(c), 0)) != model[c]:
+            raise Violation(f'reported count of {c} is {reported.get(str(c), 0)}, it was selected in {model[c]} of the '
+                            f'{len(selections)} sampled batches (k={case["k"]} full batches of {m} rows, tail {case["t"]}, cap {case["cap"]}); '
+                            f'reported={reported}', kind='C07/counter')
+    extra = set(reported) - {str(c) for c in cands}
+    if extra:
+        raise Violation(f'reported counts hold foreign keys {sorted(extra)[:3]}', kind='C07/counter')
+    counts = [model[c] for c in cands]
+    if selections and max(counts) - min(counts) > 1:
+        raise Violation(f'evaluation counts differ by more than one after {len(selections)} batches: {sorted(counts)}', kind='C07/fairness')
+
+
 def pipeline_candidates(cols):
     return [x for x in itertools.combinations_with_replacement(cols, 2) if 'label' in x]
 
 
-def check_history(cands, steps, cols=None):
+def check_history(cands, steps, cols=None, h3mr=False):
     """Interpret the history against the implementation and the model. Returns (#batches, flags)."""
     stubs.reset_globals()
     model = Counter()
@@ -125,9 +224,24 @@ def check_history(cands, steps, cols=None):
     candset = set(cands)
     for si, (kind, cap) in enumerate(steps):
         before = {c: model[c] for c in cands}
-        args = stubs.make_args(heuristic='Constant', combination_number_upper_bound=int(cap), target_ranking_only='True')
+        args = stubs.make_args(heuristic='MI-numba-3mr' if h3mr else 'Constant', combination_number_upper_bound=int(cap),
+                               target_ranking_only='True')
         if kind == 'd':
             got = cr.prior_combinations_sample(list(cands), args)
+        elif h3mr:
+            out = cr.mixed_rank_graph(df, args, stubs.InlinePool(), stubs.PBar()).triplet_scores
+            if len(out) % 2:
+                raise Violation(f'batch {si + 1}: scoring heuristic returned an odd number of rows ({len(out)})', kind='C07/size')
+            got = []
+            for a, b, _ in out[::1]:
+                g = (a, b) if (a, b) in candset else (b, a)
+                got.append(g)
+            # both orientations of every evaluated pair are listed: each evaluated candidate appears exactly twice
+            cnt = Counter(got)
+            if any(v != 2 for v in cnt.values()):
+                raise Violation(f'batch {si + 1} (cap {cap}, 3MR pipeline): candidates evaluated more than once in one batch: '
+                                f'{[(k_, v // 2) for k_, v in cnt.items() if v != 2][:4]}', kind='C07/distinct')
+            got = list(cnt)
         elif kind == 'pn':
             # a scoring heuristic that yields NaN for some pairs (Pearson on a column that is constant in the batch): an
             # evaluation with an undefined score is still an evaluation
@@ -355,6 +469,18 @@ def oracle(case, rec):
         rec.cls('multi-list')
         check_multi(lists, steps)
         return
+    if case['mode'] == 'task':
+        rec.nt(int(case['k']) + (int(case['t']) > 1024) >= 2 and int(case['cap']) < int(case['ncols']), key=case)
+        check_task(case, rec)
+        return
+    if case['mode'] == 'pipeline3mr':
+        cols = case['cols']
+        cands = candidates_3mr(cols)
+        steps = [(k, int(c)) for k, c in case['steps']]
+        rec.cls('pipeline-3mr', 'has-relation-columns' if any(' AND_REL ' in c for c in cols) else 'no-relation-columns')
+        rec.nt(len(steps) >= 3 and any(c < len(cands) for _, c in steps), key=case)
+        check_history(cands, steps, cols, h3mr=True)
+        return
     if case['mode'] == 'prior':
         rec.cls('prior-heuristic')
         rec.nt(len(case['steps']) >= 3 and len(set(c for _, c in case['steps'])) >= 2, key=case)
@@ -380,7 +506,7 @@ def oracle(case, rec):
     check_history(cands, steps, cols)
 
 
-KINDS = ['C07/history', 'C07/exhaustive', 'C07/size', 'C07/distinct', 'C07/foreign', 'C07/least-evaluated', 'C07/fairness', 'C07/counter']
+KINDS = ['C07/history', 'C07/task', 'C07/exhaustive', 'C07/size', 'C07/distinct', 'C07/foreign', 'C07/least-evaluated', 'C07/fairness', 'C07/counter']
 ORACLES = {k: oracle for k in KINDS}
 
 
@@ -416,7 +542,9 @@ def run(ctx):
     ctx.extra['exhaustive_scope'] = f'all cap sequences of length <=5 (caps 1..len+1) over 1-4 candidates: {tot} histories'
     clauses = [
         Clause('C07/history', lambda: st.one_of(direct_history(), direct_history(), pipeline_history(), pipeline_history(), multi_history(),
-                                                multi_history(), prior_history(), large_history(), overlap_history(), construction_history()), oracle, quick=900, thorough=180000,
+                                                multi_history(), prior_history(), large_history(), overlap_history(), construction_history(),
+                                                pipeline3mr_history()), oracle, quick=900, thorough=180000,
                quick_shards=6),
+        Clause('C07/task', task_history, oracle, quick=24, thorough=1200, quick_shards=8, thorough_shards=16),
     ]
     drive(ctx, clauses)
